@@ -215,3 +215,21 @@ impl Builder {
         self.0.build(output_gates)
     }
 }
+
+/// Forwards to the crate-private `eval::resolve_const_type` (array sizes given by constants are
+/// replaced by their values).
+pub fn resolve_const_type(
+    ty: &crate::ast::Type,
+    const_sizes: &HashMap<String, usize>,
+) -> crate::ast::Type {
+    crate::eval::resolve_const_type(ty, const_sizes)
+}
+
+/// Forwards to the crate-private `Type::size_in_bits_for_defs`.
+pub fn size_in_bits(
+    ty: &crate::ast::Type,
+    prg: &crate::TypedProgram,
+    const_sizes: &HashMap<String, usize>,
+) -> usize {
+    ty.size_in_bits_for_defs(prg, const_sizes)
+}
